@@ -658,10 +658,18 @@ func TestTolerance(t *testing.T) {
 		if len(d.floats)+len(d.times)+len(d.durs) == 0 {
 			// (a duration or timestamp written in two ways - {nanos:-1} and {seconds:-1 nanos:999999999} - is a difference of
 			// zero inside a compared kind, not a difference outside: compare canonical forms)
-			if pe := proto.Equal(canonTimes(stripChangeTime(x)), canonTimes(stripChangeTime(y))); got != pe {
-				t.Fatalf("%s: pair differs only outside the compared kinds but verdict %v != proto.Equal %v\n x={%s}\n y={%s}", desc, got, pe, txt(x), txt(y))
+			// Whether such a pair counts as equal depends on whether that kind is one the comparer in hand looks into (then
+			// it is a difference of zero) or not (then the fields differ), and in And / Or compositions on each part
+			// separately: the arithmetic predicate above has judged that. The inert check is for pairs on which both readings agree.
+			pe, peCanon := proto.Equal(stripChangeTime(x), stripChangeTime(y)), proto.Equal(canonTimes(stripChangeTime(x)), canonTimes(stripChangeTime(y)))
+			if pe != peCanon {
+				lib.Ev.Class("tolerance:same instant or span written in two ways (inert check not applied)")
+			} else {
+				if got != pe {
+					t.Fatalf("%s: pair differs only outside the compared kinds but verdict %v != proto.Equal %v\n x={%s}\n y={%s}", desc, got, pe, txt(x), txt(y))
+				}
+				lib.Ev.Class("tolerance:no diff of compared kinds (inert check)")
 			}
-			lib.Ev.Class("tolerance:no diff of compared kinds (inert check)")
 		}
 		nt := ""
 		if nd := len(d.floats) + len(d.times) + len(d.durs); nd == 1 && !d.other {
